@@ -130,3 +130,6 @@ def run(ctx):
                               "the stored name is the comm content with only trailing characters removed (%s)" % ", ".join(applied),
                               "the kernel's thread name is altered before it is stored: %s applied to the comm content (only trailing trimming is expected)" % ", ".join(extra or ["?"]))
         ctx.floor(R, "Thread aggregates in enumerate_threads", n, 1)
+    # a thread whose name cannot be decoded must be "simply absent": it must not fail the dump (and with it every other entry)
+    from rules import c04
+    c04.rule_hard_decode(ctx, R="C15/hard-decode")
